@@ -252,6 +252,8 @@ var props = map[string]*Prop{
 				Profile: ovgen.Profile{Imports: []ovgen.ImportRewrite{{File: "pkg/analysis/ir/canonicalizer.go", Map: map[string]string{"sync": ovgen.ShimBase + "vsync"}}}}},
 			{Name: "locations", Pkg: "pkg/diff", Test: "TestVerifC01Locations", Shards: sh(16, 16), TimeoutS: sh(1200, 1800)},
 			{Name: "concurrent-fingerprinting-race", Pkg: "pkg/diff", Test: "TestVerifC01Race", Shards: sh(2, 4), Race: true, TimeoutS: sh(1800, 3600)},
+			{Name: "cli-concurrent-callers", Pkg: "internal/cli", Test: "TestVerifC01Callers", Tags: []string{"verif_clifs"}, Shards: sh(5, 7), GoMaxProcs: 2, TimeoutS: sh(1800, 3600), DeadlineS: sh(600, 2400),
+				Profile: ovgen.Profile{Imports: []ovgen.ImportRewrite{{Dir: "internal/cli", Map: map[string]string{"sync": ovgen.ShimBase + "vsync", "golang.org/x/sync/errgroup": ovgen.ShimBase + "verrgroup"}}}}},
 			{Name: "process-configurations", Pkg: "internal/cli", Test: "TestVerifC01Configs", Shards: sh(3, 3), Builds: []Build{{Pkg: "cmd/sfw", Out: "sfw"}}},
 		},
 	},
